@@ -347,6 +347,9 @@ impl Property for C14 {
     fn max_shrink_iters(&self) -> u32 {
         400
     }
+    fn fuzz_sequences(&self) -> Vec<(&'static str, usize)> {
+        vec![("/Hb/evs", 70), ("/Direct/evs", 70)]
+    }
     fn run(&self, case: &Case14) -> Outcome {
         let case = match case {
             Case14::Hb(c) => c,
